@@ -185,3 +185,20 @@ Example C31_example :
   results evs = [RIns true; RIns false; RGet (Some a); RIns true; RGet (Some c); RGet None;
                  RDel 1; RIns true; RAll [b]].
 Proof. vm_compute. repeat split; intros H; discriminate H. Qed.
+
+(** The reading of "keeps the newest live revocation per interface": the cache holds
+    ONE revocation per interface, the most recently accepted one.  A (timestamp 90,
+    expires 200) is accepted; C (timestamp 95, expires 100) is newer, is accepted and
+    replaces A.  At 150 C has expired and A is no longer stored, so the lookup returns
+    nothing although A was accepted and is unexpired; offering A again succeeds.  This
+    is what memRevCache does (Insert "inserts or updates", one cache item per key) and
+    what [C31_get_exact] states through [last_acc]. *)
+Example C31_replaced_revocation_is_gone :
+  let a := {| r_ia := 1; r_if := 5; r_ts := 90; r_ttl := 110; r_id := 1 |} in
+  let c := {| r_ia := 1; r_if := 5; r_ts := 95; r_ttl := 5; r_id := 3 |} in
+  let evs := [(96, Insert a); (97, Insert c); (98, Get (1, 5)); (150, Get (1, 5)); (150, GetAll);
+              (150, Insert a); (151, Get (1, 5))] in
+  mono_evs 0 evs /\
+  results evs = [RIns true; RIns true; RGet (Some c); RGet None; RAll []; RIns true; RGet (Some a)] /\
+  check (CHist evs (results evs)) = 0.
+Proof. vm_compute. repeat split; intros H; discriminate H. Qed.
